@@ -41,6 +41,8 @@ def parseOp (t : String) : Option Op :=
   | ["c"] => some .clear
   | ["k", s, p, prof, hx] => do
       some (.pkt { ssrc := ← s.toNat?, pt := ← p.toNat?, ext := ← parseExt prof hx })
+  | ["k", s, p, prof, hx, fl] => do   -- `fl`: the listeners whose channel is full, dot-separated
+      some (.pkt { ssrc := ← s.toNat?, pt := ← p.toNat?, ext := ← parseExt prof hx, full := ← natList fl })
   | _ => none
 
 def showVia : Via → String
@@ -52,6 +54,7 @@ def showOutcome : Outcome → String
   | .dropped => "0"
   | .delivered l _ => s!"d{l}"
   | .closedOut _ _ => "0"
+  | .fullOut _ _ => "0"
 
 def showSnap (r : Reg) : String :=
   let s := (sortBy (fun a b => a.1 < b.1) r.bySsrc).map (fun e => s!"{e.1}:{e.2}")
@@ -68,6 +71,8 @@ def demuxRun (ops : List String) : String :=
     match ops with
     | [] => acc.reverse
     | t :: rest =>
+      -- `f,<l>` / `u,<l>`: the harness fills / drains a listener channel; the model sees it through the packets' `full` list
+      if t.startsWith "f," || t.startsWith "u," then go r rest (s!"-|{showSnap r}" :: acc) else
       match parseOp t with
       | none => ("bad-op" :: acc).reverse
       | some o =>
